@@ -127,7 +127,7 @@ def rule_select(ctx, F, rule="R1"):
             ctx.ob(rule, lab + "/no-timeline-stops", ok,
                    "a key without timeline stops the animation (timeline := None) and leaves the component alone", site,
                    trace_of(p), what="no-timeline-key-wrong")
-    ctx.floor(rule, "key-change rows of select_animation", n_restart, 5)
+    ctx.floor(rule, "key-change rows of select_animation", n_restart, 2)
 
 
 def rule_chain(ctx, F, rule2="R2", rule3="R3"):
